@@ -15,6 +15,7 @@ import (
 	pk "github.com/Tnze/go-mc/net/packet"
 
 	"verif/inject"
+	"verif/ref/refwire"
 	"verif/vm"
 )
 
@@ -296,6 +297,34 @@ func checkConn(c *vm.Ctx, r *vm.Rand) {
 		}
 	}) || !ok {
 		return
+	}
+	// what went out, read by the reference: AES-CFB8 decryption of the whole byte stream under the shared secret
+	// (key = IV) must give the packets as conformant frames, in order, and nothing else
+	{
+		blk, _ := aes.NewCipher(append([]byte{}, secret...))
+		plain := (&refCFB8{b: blk, reg: append([]byte{}, secret...), dec: true}).do(wire.Bytes())
+		off := 0
+		for i, p := range pkts {
+			f, err := refwire.ParseFrame(plain[off:], threshold)
+			if err != nil {
+				c.Violation("conn/wire-not-ciphertext-of-frames", fmt.Sprintf("the bytes written, decrypted by the reference AES-CFB8, are not frame %d of %d at offset %d: %v", i, n, off, err), wit())
+				return
+			}
+			if f.ID != p.id || !bytes.Equal(f.Payload, p.data) {
+				c.Violation("conn/wire-frame-content", fmt.Sprintf("frame %d decrypted by the reference holds id %d / %d bytes, sent id %d / %d bytes", i, f.ID, len(f.Payload), p.id, len(p.data)), wit())
+				return
+			}
+			off += f.Size
+		}
+		if off != len(plain) {
+			c.Violation("conn/wire-trailing", fmt.Sprintf("%d bytes written, the frames end after %d", len(plain), off), wit())
+			return
+		}
+		if n > 0 && bytes.Equal(plain, wire.Bytes()) {
+			c.Violation("conn/wire-plaintext", "the bytes written are the plaintext", wit())
+			return
+		}
+		c.Cover("conn.wire-decrypted-by-reference")
 	}
 	// receiver reads the ciphertext in arbitrary fragments
 	plan := []int{r.Range(1, 9), r.Range(1, 40), r.Range(1, 3000)}
